@@ -19,11 +19,11 @@
    PARTIAL.  The full-strength statement is
        C01_alpha : in_fragment_C02 p -> statically_determined p q -> fresh n p -> alpha p (rename p q n) (binding q) n
    for every kind of identifier and multi-module projects, and C01_same_output_core (the renamed program prints the
-   same).  Proved here: [C01_alpha_partial] for ONE module and the core tokens, under the structural hypothesis
-   [well_tokened] (C02's token traversal and the SPEC's binder traversal agree on which tokens bind in which scope,
-   token ids are unique, no nonlocal) - a decidable fact about the program that the runner evaluates on every case and
-   that has never failed, but which is not proved for all programs.  [C01_alpha_exact] needs no such hypothesis: it
-   holds for EVERY program and every respelled set that is exact on the binders.  Attributes, keyword arguments,
+   same).  Proved here: [C01_alpha_partial] for ONE module and the core tokens; its only hypothesis about the
+   program term besides C02's fragment is that the occurrence ids are pairwise different ([unique_ids]; they are
+   token indices).  That C02's token traversal and the SPEC's binder traversal agree ([well_tokened]) is now a
+   theorem ([C01_binders_are_tokens], [C01_well_tokened]).  [C01_alpha_exact] holds for EVERY program and every
+   respelled set that is exact on the binders.  Attributes, keyword arguments,
    imports across modules and the module move are tied to rope by the correspondence run and judged by the oracle
    (symtable binding maps before / after, execution before / after), not by a theorem; behaviour preservation is the
    execution oracle's job. *)
@@ -32,7 +32,7 @@ From RopeVerif.Lib Require Import Text.
 From RopeVerif.C15 Require Import Syntax Scoping RopeScopes Fragment.
 From RopeVerif.C02 Require Import Occurrences.
 From RopeVerif.C01 Require Import Collector CollectorProofs Rename RenameProofs OccTree OccTreeProofs AlphaSpec
-                                  AlphaTreeProofs AlphaProofs AlphaC02Proofs Runner Witnesses Theorems.
+                                  AlphaTreeProofs AlphaProofs TokensProofs AlphaC02Proofs Runner Witnesses Theorems.
 Import ListNotations.
 
 (* ------------------------------------------------------------------ ChangeCollector *)
@@ -66,6 +66,28 @@ Example C01_collector_example :
      = Some [97; 98; 32; 110; 101; 119; 40; 121; 44; 32; 110; 101; 119; 41]%N.
 Proof. exact collector_example. Qed.
 Print Assumptions C01_collector_example.
+
+(* C01_parses at text level: what rename_in_module returns for a module is the old text with the same gaps
+   (layout, comments, strings, operators, keywords - everything that is not an identifier token) in the same order
+   and the same number of words, the k-th word respelled exactly when its token id is among the renamed ones *)
+Theorem C01_rename_text_skeleton :
+  forall (segs : list (text * text)) (wids ids : list N) (nw tail r : text),
+    words_nonempty segs ->
+    rename_text segs wids ids nw tail = Some r ->
+    let segs' := relabel_segs segs (map (fun i => memNid i ids) wids) nw in
+    r = render segs' tail
+    /\ map fst segs' = map fst segs
+    /\ length segs' = length segs
+    /\ forall k g w, nth_error segs k = Some (g, w) ->
+         nth_error segs' k = Some (g, if memNid (nth k wids 0%N) ids && Nat.ltb k (length wids) then nw else w).
+Proof. exact rename_text_skeleton. Qed.
+Print Assumptions C01_rename_text_skeleton.
+
+Example C01_rename_text_example :
+  rename_text ex_segs [0; 1; 2; 3]%N [1; 3]%N ex_new ex_tail
+  = Some [97; 98; 32; 110; 101; 119; 40; 121; 44; 32; 110; 101; 119; 41]%N.
+Proof. exact rename_text_example. Qed.
+Print Assumptions C01_rename_text_example.
 
 (* ------------------------------------------------------------------ the _is_local shortcut *)
 (* a name _is_local accepts (an AssignedName held by a function scope) has no occurrence outside its own module:
@@ -144,22 +166,43 @@ Theorem C01_alpha_exact :
 Proof. exact alpha_program. Qed.
 Print Assumptions C01_alpha_exact.
 
+(* C02's token traversal and the SPEC's binder traversal agree on the whole fragment: every binder token of every
+   scope of the token tree (bound names and global declarations) is a core token of [toks p] that sits in that
+   scope, and no scope declares a nonlocal - for every program of C15's fragment, any size and nesting *)
+Theorem C01_binders_are_tokens :
+  forall (nl : N) (p : program),
+    in_fragment_C15 p = true ->
+    forall ch, In ch (o_chains [] [] (spec_otree nl p)) ->
+      (forall o, In o (chain_scope ch) ->
+         exists t, In t (toks p) /\ core t = true /\ t_occ t = o /\ t_env t = chain_path ch)
+      /\ match ch with (_, os) :: _ => ononlocals os = [] | [] => True end.
+Proof. exact binders_are_tokens. Qed.
+Print Assumptions C01_binders_are_tokens.
+
+(* ... hence the structural hypothesis the first version of the alpha theorem carried is a theorem *)
+Theorem C01_well_tokened :
+  forall (nl : N) (p : program),
+    in_fragment_C15 p = true -> unique_ids p = true -> well_tokened nl p = true.
+Proof. exact well_tokened_frag. Qed.
+Print Assumptions C01_well_tokened.
+
 (* the rename rope performs (the respelled tokens are C02's occurrences of the query token): inside C02's domain,
-   for a fresh name, every core token of the renamed module denotes the binding it denoted *)
+   for a program term whose token ids are pairwise different and a name no token is spelled like, every core token
+   of the renamed module denotes the binding it denoted.  (_partial: one module, core tokens - see the header.) *)
 Theorem C01_alpha_partial :
   forall (p : program) (nl : N) (bi : list ident) (inh : list nat -> ident -> option binding)
          (init call : ident) (meths : list (list nat * option ident * (bool * bool))) (kwlike : N -> bool)
          (q : tok) (n : ident) (Pb : list nat),
     in_fragment_C02 bi inh init call meths kwlike p = true ->
-    well_tokened nl p = true ->
-    fresh nl p n = true ->
+    unique_ids p = true ->
+    fresh_name p n = true ->
     In q (toks p) -> core q = true ->
     spec_binding bi (spec_tree nl p) q = BScope Pb ->
     forall t : tok,
       In t (toks p) -> core t = true ->
       alpha_tok bi nl p (rename_ids bi inh (rope_tree p) init call meths kwlike (toks p) q) n
                 (t_env t) (t_id t) (t_name t) = true.
-Proof. exact alpha_rename. Qed.
+Proof. exact alpha_rename_full. Qed.
 Print Assumptions C01_alpha_partial.
 
 (* non-vacuity: the example module (a global also written under a global declaration, a function with a
@@ -167,8 +210,8 @@ Print Assumptions C01_alpha_partial.
    the domain; three renames with their respelled tokens, each satisfying the conclusion on every core token *)
 Example C01_example_domain :
   m_frag ex_m w_example_builtins w_example_idents w_example_init w_example_call w_example_odd w_example_prop = true
-  /\ well_tokened (pm_nlines ex_m) (pm_prog ex_m) = true
-  /\ fresh (pm_nlines ex_m) (pm_prog ex_m) w_example_fresh = true
+  /\ unique_ids (pm_prog ex_m) = true
+  /\ fresh_name (pm_prog ex_m) w_example_fresh = true
   /\ length (toks (pm_prog ex_m)) = 32%nat.
 Proof. exact example_domain. Qed.
 Print Assumptions C01_example_domain.
